@@ -13,7 +13,7 @@ from common import cerberus, cerrors, real_error, canon_errors
 LEVEL = "proof"
 import vrun as _vrun_refs
 _vrun_refs.P_REFS = 0.15      # some generated schemas carry registry references (validator-bound registries)
-COQ_FILES = ["theories/Model/Handler.v", "theories/Proofs/HandlerProofs.v", "theories/Properties/C13.v"]
+COQ_FILES = ["theories/Model/Handler.v", "theories/Proofs/HandlerProofs.v", "theories/Proofs/LocProofs.v", "theories/Properties/C13.v"]
 FACT_GROUPS = ["F8", "F10"]
 ALLOWED_AXIOMS = []
 TRUSTED_BASE = [
